@@ -513,5 +513,6 @@ CLAIM = {
     "note": "Trusted: CPython ast, vsa symbolic folding + SHAPE evaluator, numpy comparison semantics on non-NaN floats. Not decided: "
             "floating-point equality at a threshold; binning code of individual diagrams (C16).",
     "technique": "static analysis: constant propagation of the bin-type literal, symbolic folding, abstract evaluation of comparison "
-                 "shapes over the finite order-relation domain; sibling agreement of five implementations",
+                 "shapes over the finite order-relation domain (get_intervals read from the Interval constructor values, independent of loop form and names); "
+                 "sibling agreement of five implementations",
 }
